@@ -1462,6 +1462,18 @@ EGLPNUM_TYPENAME_QSLIB_INTERFACE int EGLPNUM_TYPENAME_QSchange_senses (
 	{		/* edge norms of the stored basis belong to the old basis matrix */
 		EGLPNUM_TYPENAME_EGlpNumFreeArray (p->basis->rownorms);
 		EGLPNUM_TYPENAME_EGlpNumFreeArray (p->basis->colnorms);
+		if (p->basis->rstat)
+		{		/* only the logical of a ranged row can be nonbasic at its upper bound */
+			int i;
+			for (i = 0; i < num; i++)
+			{
+				if (sense[i] != 'R' && rowlist[i] < p->basis->nrows &&
+						p->basis->rstat[rowlist[i]] == QS_ROW_BSTAT_UPPER)
+				{
+					p->basis->rstat[rowlist[i]] = QS_ROW_BSTAT_LOWER;
+				}
+			}
+		}
 	}
 	free_cache (p);
 
